@@ -67,6 +67,10 @@ type Exec struct {
 
 	MapOrderMax int // enumerate all iteration orders up to this map size
 	MapOrderSticky bool // one (chosen) iteration order per map object until it is mutated
+	SchedChoice    bool // explore interleavings at synchronisation operations
+	MaxSchedPoints int
+	schedPoints    int
+	inYield        bool
 	fatalEv      *fatalInfo
 	callStack    []*ssa.Function
 	initRunning  map[*ssa.Package]bool
